@@ -841,3 +841,109 @@ META = {
     'design_ref': 'DESIGN.md section 5, C02 and Appendix A',
     'note': 'The reference layout table sa/rules/C02_layouts.json was generated from the resolved constants and confirmed line by line against DESIGN.md Appendix A.',
 }
+
+
+@rule('C02', 'C02-R10', 'recorded qualities are the qualities at the layout positions: the header-safe quality encoding is total and invertible '
+                        '(shared with C04-R1 / C01-R3), and a quality string handed to addTagByTag reaches the encoder unmodified - only a type cast, '
+                        'never a cleaning function that removes characters (RQ would be shorter than RX)')
+def r10(ctx):
+    from ..core import include
+    from ..util import explore, mk_atoms
+    from . import C04
+    include(ctx, C04, [C04.r1], 'C02-R10')
+    f = ctx.fn(BASEDEMUX, 'TaggedRecord.addTagByTag')
+    vp = f.args.args[2].arg if len(f.args.args) > 2 else 'value'
+    enc = ('phredToFastqHeaderSafeQualities', 'fastqHeaderSafeQualitiesToPhred')
+
+    def mark(node):
+        a = node.ast
+        if node.kind == 'stmt' and isinstance(a, (ast.Assign, ast.AugAssign)):
+            tg = a.targets if isinstance(a, ast.Assign) else [a.target]
+            if any(isinstance(t, ast.Name) and t.id == vp for t in tg):
+                return 'rebind:' + src(a.value)
+        return None
+    rs = explore(f.body, mk_atoms({}), names=None, mark=mark)
+    npaths, bad = 0, []
+    for r in rs:
+        hist = []
+        for t, v, k in r['stores']:
+            if k == 'Mark' and v.startswith('rebind:'):
+                hist.append(v[len('rebind:'):])
+            elif t.startswith('self.tags[') and any(e_ in v for e_ in enc):
+                npaths += 1
+                for h in hist:
+                    he = ast.parse(h, mode='eval').body
+                    # allowed: <type>(value) with the type a parameter / builtin type name (a cast keeps every character of a string)
+                    cast = isinstance(he, ast.Call) and len(he.args) == 1 and not he.keywords and src(he.args[0]) == vp and isinstance(he.func, ast.Name) and \
+                        (he.func.id in ('str', 'bytes') or he.func.id in {a_.arg for a_ in f.args.args})
+                    if not cast and len(bad) < 3:
+                        bad.append((h, v))
+                break
+    ctx.need('C02-R10', npaths, 2, 'paths of addTagByTag that store an encoded / decoded quality string')
+    ctx.emit('C02-R10', not bad, BASEDEMUX, f, f'{npaths} paths store qualities: the string given is only type-cast before it is encoded' if not bad else
+             f'the quality string is rewritten by `{vp} = {bad[0][0]}` before `{bad[0][1][:60]}`: characters outside the name-safe alphabet are removed, the recorded qualities no longer '
+             f'line up with the recorded bases', key='qualities-encoded-unmodified', witness={'rebinding': bad[0][0], 'store': bad[0][1]} if bad else None,
+             what='addTagByTag: a quality string is cleaned before it is phred-encoded')
+
+
+@rule('C02', 'C02-R11', 'the tag table of a record belongs to that record: `<record>.tags` is only ever bound to a freshly built mapping - never to the result of a '
+                        'memoised function, another record\'s table or a module / class level dictionary (tags of one pass would show up in the record of another)')
+def r11(ctx):
+    files = [BASEDEMUX] + [p for p in ctx.ix.pyfiles() if p.startswith(DEMUXMODS)]
+    FRESH_CALLS = {'dict', 'OrderedDict', 'defaultdict', 'Counter', 'copy', 'deepcopy'}
+    n = 0
+    bad, unsure = [], []
+    for rel in files:
+        m = ctx.ix.module(rel)
+        module_level = {t.id for st in m.tree.body if isinstance(st, ast.Assign) for t in st.targets if isinstance(t, ast.Name)}
+        cached = {fd.name for fd in ast.walk(m.tree) if isinstance(fd, ast.FunctionDef) and any('cache' in (src(d) or '') for d in fd.decorator_list)}
+        for fdef in [x for x in ast.walk(m.tree) if isinstance(x, (ast.FunctionDef, ast.AsyncFunctionDef))]:
+            params = {a_.arg for a_ in fdef.args.args + fdef.args.kwonlyargs}
+            for st in walk_no_nested(fdef):
+                if not isinstance(st, ast.Assign):
+                    continue
+                for tg in st.targets:
+                    elts = tg.elts if isinstance(tg, (ast.Tuple, ast.List)) else [tg]
+                    for k, t in enumerate(elts):
+                        if not (isinstance(t, ast.Attribute) and t.attr == 'tags'):
+                            continue
+                        n += 1
+                        v = st.value
+                        if isinstance(tg, (ast.Tuple, ast.List)) and isinstance(v, (ast.Tuple, ast.List)) and len(v.elts) == len(elts):
+                            v = v.elts[k]
+                        if isinstance(v, ast.Name):
+                            ds = [a_.value for a_ in walk_no_nested(fdef) if isinstance(a_, ast.Assign) and len(a_.targets) == 1 and src(a_.targets[0]) == v.id]
+                            if len(ds) == 1:
+                                v = ds[0]
+                        if isinstance(v, (ast.Dict, ast.DictComp)):
+                            continue
+                        if isinstance(v, ast.Call):
+                            fn = last_name_of(v.func)
+                            if fn in cached:
+                                bad.append((rel, st, f'`{src(st)[:70]}`: {fn}() is memoised, every record built from equal arguments shares ONE table - tags written for one record appear in the others'))
+                                continue
+                            if fn in FRESH_CALLS:
+                                continue
+                        if isinstance(v, ast.Attribute) and v.attr == 'tags':
+                            bad.append((rel, st, f'`{src(st)[:70]}`: the table of another record is shared, not copied'))
+                            continue
+                        if isinstance(v, ast.Name) and (v.id in module_level and v.id not in params):
+                            bad.append((rel, st, f'`{src(st)[:70]}`: a module level dictionary is shared by all records'))
+                            continue
+                        unsure.append((rel, st))
+    ctx.need('C02-R11', n, 1, 'bindings of a record tag table')
+    for rel, st, msg in bad:
+        ctx.emit('C02-R11', False, rel, st, msg, key='tag-table-owned', what='TaggedRecord.tags is shared between records')
+    for rel, st in unsure:
+        ctx.emit('C02-R11', False, rel, st, f'`{src(st)[:70]}`: cannot tell whether the bound mapping is fresh', key='tag-table-owned', undecided=True)
+    if not bad and not unsure:
+        ctx.emit('C02-R11', True, BASEDEMUX, None, f'{n} binding(s) of a record tag table, all to a freshly built mapping', key='tag-table-owned')
+
+
+def last_name_of(e):
+    d = dotted(e) or ''
+    return d.split('.')[-1]
+
+
+from . import shared as _shared
+_shared.register('C02', 'C02')
